@@ -26,3 +26,9 @@ def run(r: core.Runner):
                                 "savitski_mq_mult", "savitski", "razor_picked_mq_input"])
     SUITES_EXTRA.append(ps)
     r.run_suite(ps)
+    if r.tier == "thorough":
+        # once per thorough pass: the independent checker over the whole development
+        chk = core.run_coqchk()
+        r.extra["coqchk"] = chk
+        if chk["problems"]:
+            r.violation("proof", {"suite": "coqchk", "problems": chk["problems"]}, False, "coqchk: " + "; ".join(chk["problems"])[:300])
